@@ -24,7 +24,7 @@ PROP = {
     "id": "C05",
     "lean_targets": ["WmModel.Props.C05Reg", "WmModel.Props.C05"],
     "audit_module": "Audit.C05",
-    "theorems": ["Wm.GcReg.blocking_publish_waits", "Wm.GcReg.blocking_send_then_wait", "Wm.GcReg.blocking_deadlock_witness", "Wm.GcReg.blocking_without_pending_writer_returns", "Wm.GcReg.writer_unique", 
+    "theorems": ["Wm.GcReg.blocking_order", "Wm.GcReg.blocking_publish_waits", "Wm.GcReg.blocking_send_then_wait", "Wm.GcReg.blocking_deadlock_witness", "Wm.GcReg.blocking_without_pending_writer_returns", "Wm.GcReg.writer_unique", 
         "Wm.GcSub.one_unsettled_inv", "Wm.GcSub.unsettled_is_owned", "Wm.GcSub.no_send_while_unsettled",
         "Wm.GcSub.never_panics", "Wm.GcSub.close_flags_consistent", "Wm.GcSub.holder_can_leave_when_closing",
     ],
